@@ -129,6 +129,58 @@ pub fn main(args: &[String]) -> i32 {
             });
             out[..o.len().min(256)].copy_from_slice(&o[..o.len().min(256)]);
         }
+        // one field operation on secret operands (the values the ladders and the group formulas compute with are all secret-derived):
+        // "fe:<op>" or "fe:<pre>:<op>", secret = a || b (2 x 32 bytes); decoding and the optional preparation step (which gives the operand
+        // the limb representation it has inside the ladder) happen before the window
+        n if n.starts_with("fe:") => {
+            use cryptoxide::curve25519::Fe;
+            let parts: Vec<&str> = n.split(':').collect();
+            let (pre, op) = if parts.len() == 3 { (parts[1], parts[2]) } else { ("", parts[1]) };
+            let a0 = Fe::from_bytes(&arr(&secret[..32]));
+            let b = Fe::from_bytes(&arr(&secret[32..64]));
+            let a = match pre {
+                "" => a0,
+                "sub" => &a0 - &b,
+                "add" => &a0 + &b,
+                "square" => a0.square(),
+                "mul" => &a0 * &b,
+                _ => {
+                    eprintln!("victim: unknown preparation {}", pre);
+                    return 2;
+                }
+            };
+            let mut bytes = [0u8; 32];
+            let mut flag = 0u8;
+            let r = window!({
+                let (a, b) = (black_box(&a), black_box(&b));
+                match op {
+                    "add" => a + b,
+                    "sub" => a - b,
+                    "neg" => -a,
+                    "mul" => a * b,
+                    "square" => a.square(),
+                    "square_and_double" => a.square_and_double(),
+                    "mul_small" => a.verif_mul_small(false),
+                    "mul_small9" => a.verif_mul_small(true),
+                    "invert" => a.invert(),
+                    "to_bytes" => {
+                        bytes = a.to_bytes();
+                        Fe::ZERO
+                    }
+                    "is_negative" => {
+                        flag = a.is_negative() as u8;
+                        Fe::ZERO
+                    }
+                    _ => {
+                        eprintln!("victim: unknown field operation {}", op);
+                        std::process::exit(2)
+                    }
+                }
+            });
+            out[..32].copy_from_slice(&r.to_bytes());
+            out[32..64].copy_from_slice(&bytes);
+            out[64] = flag;
+        }
         // comparison of a secret tag (the correct one) with a candidate (public argument, same length)
         "mac_eq" => {
             let a = MacResult::new(&secret);
